@@ -159,6 +159,7 @@ def verify_unit_once(unit, info, repo, workdir, seed=None, rlimit_mult=1, modes=
     res['regions'] = a['regions']
     res['fnprops'] = template_directives(info['path'])['fnprops']
     res['allprops'] = info.get('allprops', [])
+    res['unitprops'] = info.get('props', [])
     res['notes'] = a['notes']
     text = a['text']
     lines = text.split('\n')
@@ -256,7 +257,7 @@ def verify_unit_once(unit, info, repo, workdir, seed=None, rlimit_mult=1, modes=
                 break
         site = lines[ln].strip() if ln is not None and ln < len(lines) else ''
         reg = region_by_label.get(lm[0]) if lm[0] else None
-        props = (reg['props'] if reg else None) or direc['fnprops'].get(fn) or info.get('allprops') or a['props']
+        props = (reg['props'] if reg else None) or direc['fnprops'].get(fn) or info.get('props') or a['props']
         aux = any(re.search(p, site) or re.search(p, clause) for p in direc['aux']) or '// aux' in site or '// aux' in clause
         res['failures'].append({
             'unit': unit, 'function': label, 'verus_fn': fn, 'kind': kind, 'message': msg, 'site': site,
@@ -374,7 +375,7 @@ def functions_of_property(r, prop):
             if any(prop in rg['props'] for rg in regs):
                 out.append(f)
         else:
-            props = r.get('fnprops', {}).get(name) or r.get('allprops') or []
+            props = r.get('fnprops', {}).get(name) or r.get('unitprops') or r.get('allprops') or []
             if prop in props or not props:
                 out.append(f)
     return out
